@@ -229,18 +229,20 @@ def partial_and_polynomial(inp):
 
 # ------------------------------------------------------------------ staged evaluation
 def gen_staged(tier, rng):
-    for _ in range(count(tier, 150, 1500)):
+    for _ in range(count(tier, 180, 1800)):
+        # (names whose numeric order is not their string order - q2 before q10 - in a third of the inputs)
+        U = rng.choice([["q0", "q1", "q2"], ["q0", "q1", "q2"], ["q1", "q2", "q10"]])
         p = rand_poly(rng, shape=rng.choice(PSHAPES[:5]), dtype=rng.choice(["int64", "int64", "float64"]),
-                      names=sorted(rng.sample(["q0", "q1", "q2"], rng.choice([2, 2, 3]))))
+                      names=sorted(rng.sample(U, rng.choice([2, 2, 3])), key=lambda n: int(n[1:])))
         names = p["names"]
         first = rng.sample(names, rng.randint(1, len(names) - 1))
         arrays_in = rng.choice([0, 1, 2])         # which stage may carry arrays (shapes stay comparable)
         fam = rng.choice(FAMILIES)
         mode = rng.choice(["numeric", "numeric", "polynomial"])
-        stage1 = {n: (rand_poly_arg(rng, ["q0", "q1", "q2"], [()]) if mode == "polynomial" and rng.random() < 0.7 else
+        stage1 = {n: (rand_poly_arg(rng, U, [()]) if mode == "polynomial" and rng.random() < 0.7 else
                       rand_numeric(rng, fam, p_array=0.5 if arrays_in == 1 and mode == "numeric" else 0.0)) for n in first}
         stage2 = {n: (rand_numeric(rng, fam, p_array=0.5 if arrays_in == 2 and n in names and n not in first else 0.0)
-                      if mode == "numeric" else rand_scalar(rng, wide=True)) for n in ["q0", "q1", "q2"]}   # wide: degree grows
+                      if mode == "numeric" else rand_scalar(rng, wide=True)) for n in U}   # wide: degree grows
         if rng.random() < 0.15:
             # tiny non-constant coefficients: the intermediate result must stay a polynomial
             def scale(c):
@@ -267,6 +269,9 @@ def staged(inp):
         return msg
     left = list(r1.names)
     a2 = {n: inp["second"][n] for n in left if n in inp["second"]}
+    # positional arguments of the second stage are given in the order a user knows: the indeterminates that are left, in the
+    # numeric order of the names (the order of the polynomial they came from) - not in whatever order the intermediate lists them
+    left = sorted(left, key=lambda n: int(n[1:]))
     r2 = r1(*[mk(a2[n]) for n in left]) if inp["positional"] and len(a2) == len(left) else r1(**{n: mk(a) for n, a in a2.items()})
     want2 = expected(want1, a2)
     msg = matches(r2, want2, "stage 2")
